@@ -18,8 +18,11 @@ class Contract(object):
     def __init__(self, qualname, prop, model="R", params=None, returns=None, requires=(), ensures=(), modifies=(),
                  raises=None, loops=None, inline=(), canary=None, trusted=(), leading_asserts="oblige",
                  globals=None, fresh_result=False, note="", ghost=None, pure=False, assume_only=False,
-                 replay=None, allocates=True, axioms=(), assume=()):
+                 replay=None, allocates=True, axioms=(), assume=(), tag=None, lemmas_used=()):
         self.qualname = qualname
+        self.tag = tag
+        self.tag_is_lemma = bool(tag) and tag.startswith("lemma")
+        self.key = qualname + ("#" + tag if tag else "")
         self.prop = prop if isinstance(prop, (list, tuple)) else [prop]
         self.model = model
         self.params = {k: parse_type(v) for k, v in (params or {}).items()}
@@ -42,12 +45,13 @@ class Contract(object):
         self.replay = replay
         self.allocates = allocates
         self.axioms = list(axioms)
+        self.lemmas_used = list(lemmas_used)
         self.assume = list(assume)   # extra assumptions (listed as trusted)
 
 
 def contract(qualname, prop, **kw):
     c = Contract(qualname, prop, **kw)
-    REG.contracts[qualname] = c
+    REG.contracts[c.key] = c
     return c
 
 
@@ -86,6 +90,7 @@ class Lemma(object):
         self.assumes = list(assumes)
         self.goal = goal
         self.axioms = list(axioms)
+        self.lemmas_used = list(lemmas_used)
         self.trusted = list(trusted)
         self.note = note
         self.canary = canary
